@@ -6,12 +6,14 @@ import re
 from harness import core, docgen, inputs, trees
 
 GEN = ['gen_tables']
-THEOREMS = ['C10_bound', 'C10_words_preserved', 'C10_fill_determined_by_words', 'C10_not_rebroken', 'C10_quote_budget',
+THEOREMS = ['C10_plain_words_reflow', 'C10_plain_words_instance', 'C10_bound', 'C10_words_preserved', 'C10_fill_determined_by_words', 'C10_not_rebroken', 'C10_quote_budget',
             'C10_list_item_budget']
 TRUSTED = ['Model/MarkdownRenderer.v: hand-written model of markdown_renderer.py (fragments, make_words, fragments_to_lines, prefix_lines, '
            'block rendering, tables); the whitespace table (\\s / str.isspace) is regenerated from the interpreter every run',
            'the document generator harness/docgen.py and the HTML whitespace normaliser (oracle side)']
-ASSUMPTIONS = ['clause 1 (same meaning after reflow) is decided by the oracle on the implementation only: the model has no parser yet (PARTIAL)',
+ASSUMPTIONS = ['clauses 1 (same meaning after reflow) and 4 (reflowing again changes nothing) are PROVED for top-level paragraphs of plain words and every limit '
+               '(C10_plain_words_reflow; the class is also run on the implementation: plain_word_paragraphs); for other documents they are decided by the oracle on '
+               'the implementation only (PARTIAL)',
                'prose words that could start a block at the beginning of a line are the recorded class kf_wrap_block_marker_word']
 
 
@@ -108,6 +110,36 @@ def doc_worker(args):
 
 
 PREFIX_RE = re.compile(r'^(?:> ?| {1,8}|[-+*] {1,4}|\d{1,9}[.)] {1,4})*')
+
+
+PLAIN_WORDS = ['Lorem', 'ipsum,', '(dolor)', 'sit', 'amet;', 'a.b', 'c:d', 'e%f', 'verylongwordindeed', 'x', 'Zed.', '"q"', "it's", 'a-b', 'c+d', 'e=f', 'g#h', 'i>j', 'k/l', '@m', '^n', '}o', 'é', '中文', 'ß—', '«p»']
+
+
+def plain_words_worker(args):
+    """the class of C10_plain_words_reflow on the implementation: same meaning, fixed point, lines are groups of the words"""
+    words, L = args
+    import html as _html
+    import mistletoe
+    from mistletoe import Document
+    from mistletoe.markdown_renderer import MarkdownRenderer
+    text = ' '.join(words) + '\n'
+    try:
+        with MarkdownRenderer(max_line_length=L) as r:
+            out = r.render(Document(text))
+            again = r.render(Document(out))
+        h1 = mistletoe.markdown(text)
+        h2 = mistletoe.markdown(out)
+    except Exception as e:
+        return 'EXC %s: %s' % (type(e).__name__, e)
+    lines = out[:-1].split('\n')
+    problems = []
+    if ' '.join(lines).split(' ') != words:
+        problems.append('the lines are not groups of the words')
+    if h1 != '<p>' + _html.escape(' '.join(words), quote=False) + '</p>\n' or h2 != '<p>' + _html.escape('\n'.join(lines), quote=False) + '</p>\n':
+        problems.append('the HTML is not the paragraph of the lines')
+    if again != out:
+        problems.append('reflowing again changes the text')
+    return [problems, out, again, h1, h2]
 
 
 def run(ctx, only=None):
@@ -214,6 +246,18 @@ def run(ctx, only=None):
             if core.dstr(m) != md:
                 ctx.disagreements.append({'interface': 'X-md', 'input': {'text': text, 'L': L, 'normalize_whitespace': norm},
                                           'model': core.dstr(m), 'impl': md})
+    # ---- the class of the unbounded theorem (paragraphs of plain words x every limit), on the implementation
+    pw = []
+    for _ in range(3000 if ctx.quick() else 60000):
+        pw.append(([rng.choice(PLAIN_WORDS) for _ in range(rng.randint(1, 25))], rng.randint(1, 120)))
+    with mp.Pool(core.NPROC) as pool:
+        pres = pool.map(plain_words_worker, pw, chunksize=200)
+    for (words, L), r in zip(pw, pres):
+        ctx.count('evaluations')
+        ctx.count('plain_word_paragraphs')
+        if isinstance(r, str) or r[0]:
+            ctx.failing.append({'interface': 'oracle(plain words)', 'input': {'text': ' '.join(words) + '\n', 'L': L},
+                                'what': r if isinstance(r, str) else '; '.join(r[0]), 'observed': None if isinstance(r, str) else r[1:], 'kf': None})
     ctx.count('distinct_nontrivial', len(nontriv))
     ctx.sample({'stream': 'documents', 'text': docs[1][0], 'L': docs[1][1], 'md': dres[1].get('md')})
 
